@@ -102,7 +102,7 @@ func C13(env *Env) {
 	r.Floor("C13/RANGE", 4)
 	r.Floor("C13/STRUCT", 4)
 	r.Floor("C13/UNMARSHAL", 12)
-	r.Floor("C13/ASSERT", 3)
+	r.Floor("C13/ASSERT", 2)
 }
 
 // guardHas reports whether every alternative of gates reaching block b of fn has a gate matching m.
@@ -231,11 +231,23 @@ func (env *Env) c13Tcb(e *flow.Engine) {
 	g := e.GraphOf(fn, e.Root(fn))
 	// component store: tcbComponents[i] = val
 	var compStore *ssa.Store
-	for _, b := range fn.Blocks {
+	// the store may sit in the function itself or in a helper that holds the
+	// component loop
+	var blocks []*ssa.BasicBlock
+	for _, f := range inPackages(env.calleesBelow(fn), "pcs") {
+		blocks = append(blocks, f.Blocks...)
+	}
+	ctxOf := func(f *ssa.Function) *flow.Ctx {
+		if f == fn {
+			return e.Root(fn)
+		}
+		return e.UnknownCtx(f)
+	}
+	for _, b := range blocks {
 		for _, in := range b.Instrs {
 			if st, ok := in.(*ssa.Store); ok {
 				if ia, ok := st.Addr.(*ssa.IndexAddr); ok {
-					ixt := flow.StripConv(e.Eval(ia.Index, e.Root(fn)))
+					ixt := flow.StripConv(e.Eval(ia.Index, ctxOf(st.Parent())))
 					viaHelper := ixt.Contains(func(x *flow.Term) bool { return x.Op == flow.OpIter })
 					if _, isSlice := ia.X.Type().Underlying().(*types.Slice); isSlice && (ixt.Op == flow.OpIter || viaHelper) {
 						if compStore == nil {
@@ -252,10 +264,11 @@ func (env *Env) c13Tcb(e *flow.Engine) {
 		r.Fail("C13/TCB", "component-store", where, "no store into the component SVN vector found")
 	} else {
 		ia := compStore.Addr.(*ssa.IndexAddr)
-		idx := e.Eval(ia.Index, e.Root(fn))
+		sfn := compStore.Parent()
+		idx := e.Eval(ia.Index, ctxOf(sfn))
 		var inner string
 		isIter := iterFrom(pat.Const("0"), &inner)(idx, pat.Bind{})
-		if !isIter {
+		if !isIter && sfn == fn {
 			// the index comes out of a lookup helper (`i, found := indexOf(oid)`): decide
 			// on the alternatives that reach the store, where the helper's exit is definite
 			env.c13TcbViaHelper(e, fn, compStore, elems, g)
@@ -269,24 +282,28 @@ func (env *Env) c13Tcb(e *flow.Engine) {
 			})
 		})))
 		guard := pat.Call("(encoding/asn1.ObjectIdentifier).Equal", pat.Any(), oidM)
-		okGuard := env.guardHas(e, fn, compStore.Block(), guard)
+		okGuard := env.guardHas(e, sfn, compStore.Block(), guard)
 		// inner loop bound 16, outer loop over all elements
 		okBound := false
 		okOuter := false
-		for _, l := range g.Loops {
-			head := fn.Blocks[l.Head]
-			iff, ok := head.Instrs[len(head.Instrs)-1].(*ssa.If)
-			if !ok {
-				continue
-			}
-			dom := e.Eval(iff.Cond, e.Root(fn))
-			if l.ID == inner && pat.Bin("<", iterFrom(pat.Const("0"), nil), pat.Const(env.repoConst("pcs", "tcbComponentSize")))(dom, pat.Bind{}) {
-				okBound = true
-			}
-			if pat.Bin("<", iterFrom(pat.Const("0"), nil), pat.Len(pat.Is(elems)))(dom, pat.Bind{}) {
-				okOuter = true
+		for _, lf := range []*ssa.Function{sfn, fn} {
+			lg := e.GraphOf(lf, ctxOf(lf))
+			for _, l := range lg.Loops {
+				head := lf.Blocks[l.Head]
+				iff, ok := head.Instrs[len(head.Instrs)-1].(*ssa.If)
+				if !ok {
+					continue
+				}
+				dom := e.Eval(iff.Cond, ctxOf(lf))
+				if lf == sfn && l.ID == inner && pat.Bin("<", iterFrom(pat.Const("0"), nil), pat.Const(env.repoConst("pcs", "tcbComponentSize")))(dom, pat.Bind{}) {
+					okBound = true
+				}
+				if lf == fn && pat.Bin("<", iterFrom(pat.Const("0"), nil), pat.Len(pat.Is(elems)))(dom, pat.Bind{}) {
+					okOuter = true
+				}
 			}
 		}
+		_ = g
 		if isIter && okGuard && okBound && okOuter {
 			r.OK("C13/TCB", "component-index", env.P.Pos(compStore.Pos()), "component i stored at index i under Equal(OID, prefix||i+1); i runs over 0..15 for every element; every element visited")
 		} else {
